@@ -11,6 +11,8 @@
 //	        (Get/Find/Len/Size/ForEach/forward+backward scans over all ranges/Seek) after every prefix.
 //	phase 3 (tall skip list): 13 keys inserted in every (stride, offset) order so that nodes of height 2..5
 //	        are built (the fixed rnd seed gives heights 1 1 1 1 2 1 1 1 1 1 5 ...), overwritten and reset.
+//	phase 4 (volume, volume.go): value sizes up to 5000 bytes x repetition counts up to 200 over capacities
+//	        {64, 1024, 16384}, so the append-only kv buffer passes its growth boundaries; full content check per op.
 //
 // Oracle = what the property says: Put/Delete/Get(unknown flag)/Find/iterators/Reset answer like an ordered
 // map in which a deleted key (Delete == Put(nil) == Put(empty)) stays present as a tombstone. Iterator
@@ -565,7 +567,7 @@ func main() {
 	}
 	r.Require("insert", "overwrite", "overwrite_after_delete", "delete_existing_value", "delete_existing", "delete_unknown",
 		"reset_nonempty", "iter_valid", "iter_exhausted", "iter_on_tombstone", "write_under_live_iterator",
-		"get_unknown", "get_tombstone", "get_value")
+		"get_unknown", "get_tombstone", "get_value", "volume:buffer_grew_beyond_initial_capacity")
 
 	// event menu
 	var writeEv, iterEv, newIterEv []string
@@ -844,6 +846,10 @@ func main() {
 		}
 	}
 
+	// ---------------- phase 4: volume (see volume.go)
+	volNote := volumePhase(workers)
+	r.Note("phase4_volume", volNote)
+
 	r.Assume("goleveldb comparer.DefaultComparer is bytes.Compare",
 		"iterator Key()/Value() are only specified right after a positioning call; iterators are not used across Reset",
 		"abstraction for phase-1 dedup: (entries incl. tombstones, iterator range, iterator position); every successor is still produced by replaying its whole op path on a fresh MemDB")
@@ -860,7 +866,7 @@ func main() {
 		"values":   []string{"nil", "\"\"", "x", "yy"},
 		"ranges":   len(ranges),
 		"states":   st.States, "transitions": st.Transitions, "max_depth": st.MaxDepth,
-		"traces_validated_against_impl": int64(st.Transitions) + histNodes + int64(tall),
+		"traces_validated_against_impl": int64(st.Transitions) + histNodes + int64(tall) + volNote["operations_each_fully_checked"].(int64),
 		"history_depth":                 histDepth,
 	})
 }
